@@ -3,12 +3,21 @@ C20 — serde_2026 round-trips, is total, and is recognisable.
 
 Property theorems only; lemmas are in `Lemmas/Serde2026*.lean`.  Models: `ClvmModel/Serde2026.lean`
 (transcription of `src/serde_2026/{ser,de,strategy,mod}.rs`), `ClvmModel/Intern.lean`,
-`ClvmModel/Varint.lean` (C21), `ClvmModel/Serde/Classic.lean`.
+`ClvmModel/Varint.lean` (C21), `ClvmModel/Serde/Classic.lean`, `ClvmModel/Serde/Backref.lean`.
+
+`allocCap` is the largest buffer the process can allocate (parameter of the decoder model): the
+decoder resizes its read buffer to the *declared* atom length before reading (finding I), and a
+request beyond `allocCap` is the outcome `Err.Abort`.
 -/
 import ClvmProofs.Lemmas.Serde2026Magic
+import ClvmProofs.Lemmas.Serde2026MagicBr
+import ClvmProofs.Lemmas.Serde2026Len
+import ClvmProofs.Lemmas.Serde2026Wire
 
 namespace Clvm.Props.C20
 open Clvm Clvm.Serde2026
+
+/-! ### recognisable -/
 
 /-- **Recognisable (classic decoder).** `node_from_bytes` rejects every byte string that starts with
 the 2026 magic prefix (the prefix is read as a 6-byte atom-size prefix announcing ≥ 2^34 bytes). -/
@@ -16,5 +25,92 @@ theorem magic_rejected_classic (rest : Bytes) :
     Serde.Classic.nodeFromBytes (magic ++ rest) = .error .SerializationError := by
   unfold Serde.Classic.nodeFromBytes
   rw [nodeFromStream_magic]
+
+/-- **Recognisable (`node_from_bytes_backrefs`).** -/
+theorem magic_rejected_backrefs (rest : Bytes) (c : Serde.Backref.Ctr) :
+    Serde.Backref.nodeFromBytesBackrefs (magic ++ rest) c = .error .SerializationError := by
+  unfold Serde.Backref.nodeFromBytesBackrefs
+  rw [deBrNew_magic]
+
+/-- **Recognisable (`node_from_bytes_backrefs_old`).** -/
+theorem magic_rejected_backrefs_old (rest : Bytes) (c : Serde.Backref.Ctr) :
+    Serde.Backref.nodeFromBytesBackrefsOld (magic ++ rest) c = .error .SerializationError := by
+  unfold Serde.Backref.nodeFromBytesBackrefsOld
+  rw [deBrOld_magic]
+
+/-! ### total -/
+
+/-- what "returns without panicking" means for the decoder: a result, a malformed-input error, or a
+limit of the caller's allocator -/
+def Returns {α : Type} (r : Except Err α) : Prop :=
+  match r with
+  | .ok _ => True
+  | .error e => e = .SerializationError ∨ e = .OutOfMemory ∨ e = .TooManyAtoms ∨ e = .TooManyPairs
+
+/-- the C20 totality statement for the decoder, at full strength (all byte strings, all
+`max_atom_len`, every allocatable bound).  **False of the current code** (`de_abort_witness`). -/
+def DecoderTotal : Prop :=
+  ∀ (allocCap : Nat) (blob : Bytes) (maxAtomLen : Nat) (strict : Bool),
+    Returns (deserialize2026 allocCap blob maxAtomLen strict)
+
+/-- **Decoder outcomes.** The decoder never panics; the only outcome besides a result and the benign
+errors is the process abort, and that needs `max_atom_len` to exceed what can be allocated. -/
+theorem de_outcomes (allocCap : Nat) (blob : Bytes) (maxAtomLen : Nat) (strict : Bool) :
+    Returns (deserialize2026 allocCap blob maxAtomLen strict) ∨
+    ((∃ m, deserialize2026 allocCap blob maxAtomLen strict = .error (.Abort m)) ∧ allocCap < maxAtomLen) := by
+  unfold deserialize2026
+  cases h : deserializeFromStream allocCap Intern.Counters.new blob maxAtomLen strict with
+  | ok r => left; simp [Returns]
+  | error e =>
+    rcases deserializeFromStream_err h with he | ⟨⟨m, rfl⟩, hlt⟩
+    · left; exact he
+    · right; exact ⟨⟨m, rfl⟩, hlt⟩
+
+/-- **Totality outside the defect region** (`max_atom_len ≤ allocCap`: the precise bound under which
+the allocate-before-read cannot abort). -/
+theorem de_total_partial (allocCap : Nat) (blob : Bytes) (maxAtomLen : Nat) (strict : Bool)
+    (hbound : maxAtomLen ≤ allocCap) : Returns (deserialize2026 allocCap blob maxAtomLen strict) := by
+  rcases de_outcomes allocCap blob maxAtomLen strict with h | ⟨_, hlt⟩
+  · exact h
+  · omega
+
+/-- finding I: one group, declared length 2^45, `max_atom_len = usize::MAX` -/
+def blobI : Bytes :=
+  [0xfd, 0xff, 0x32, 0x30, 0x32, 0x36, 0x01, 0xfc, 0x20, 0x00, 0x00, 0x00, 0x00, 0x00, 0x41, 0x01, 0x02]
+
+/-- **Witness**: with 2^40 allocatable bytes the 17-byte blob aborts the process, while the length
+probe rejects it — so `DecoderTotal` is false of the code as it is. -/
+theorem de_abort_witness :
+    deserialize2026 (2 ^ 40) blobI (2 ^ 64 - 1) true
+        = .error (.Abort "buf.resize(length, 0): memory allocation failed") ∧
+    serializedLength2026 blobI (2 ^ 64 - 1) true = .error .SerializationError ∧
+    ¬ DecoderTotal := by
+  refine ⟨by rfl, by rfl, ?_⟩
+  intro h
+  have := h (2 ^ 40) blobI (2 ^ 64 - 1) true
+  have e : deserialize2026 (2 ^ 40) blobI (2 ^ 64 - 1) true
+      = .error (.Abort "buf.resize(length, 0): memory allocation failed") := by rfl
+  rw [e] at this
+  simp [Returns] at this
+
+/-- **The length probe is total**: a length or `SerializationError`, for every byte string. -/
+theorem len_total (buf : Bytes) (maxAtomLen : Nat) (strict : Bool) :
+    (∃ n, serializedLength2026 buf maxAtomLen strict = .ok n) ∨
+    serializedLength2026 buf maxAtomLen strict = .error .SerializationError := by
+  cases h : serializedLength2026 buf maxAtomLen strict with
+  | ok n => left; exact ⟨n, rfl⟩
+  | error e => right; rw [serializedLength2026_err h]
+
+/-- **Probe = bytes consumed**, whenever decoding succeeds (slices are shorter than 2^64 bytes). -/
+theorem len_eq_consumed (allocCap : Nat) (blob : Bytes) (maxAtomLen : Nat) (strict : Bool) (t : Tree) (n : Nat)
+    (hlen : blob.length < 2 ^ 64)
+    (h : deserialize2026Consumed allocCap blob maxAtomLen strict = .ok (t, n)) :
+    serializedLength2026 blob maxAtomLen strict = .ok n := by
+  unfold deserialize2026Consumed at h
+  split at h
+  · cases h
+  · rename_i t' rest c hd
+    cases h
+    exact Serde2026.len_eq_consumed hlen hd
 
 end Clvm.Props.C20
